@@ -10,6 +10,7 @@ import (
 	"strings"
 	"sync"
 	"testing"
+	"time"
 
 	"github.com/sirupsen/logrus"
 	"github.com/taskctl/taskctl/pkg/runner"
@@ -38,6 +39,7 @@ type T struct {
 	CondFalse bool `json:"cond_false,omitempty"`
 	Fail      bool `json:"fail,omitempty"`
 	SleepMs   int  `json:"sleep_ms,omitempty"`
+	Long      bool `json:"long,omitempty"` // mode cancel: still running (sleep 5) when the runner is cancelled
 }
 
 // Case: tasks over contexts, and how they are started.
@@ -56,6 +58,9 @@ func tok(trace, s string) string { return fmt.Sprintf("printf '%s\\n' >> %s", s,
 func (c Case) taskCommands(i int, trace string) (cmds, before, after []string, cond string) {
 	t := c.Tasks[i]
 	cmds = []string{tok(trace, fmt.Sprintf("ts:%d:%d", i, t.Ctx))}
+	if t.Long {
+		cmds = append(cmds, "sleep 5")
+	}
 	if t.SleepMs > 0 {
 		cmds = append(cmds, fmt.Sprintf("sleep 0.%03d", t.SleepMs))
 	}
@@ -119,6 +124,8 @@ func (c Case) check(lines []string, ran []bool, errs []error, sequential bool) e
 			execs++
 			id := fmt.Sprint(i)
 			switch {
+			case t.Long && c.Mode == "cancel":
+				lastTok[id] = "ts" // interrupted inside its first long command
 			case t.After && !t.Fail:
 				lastTok[id] = "ta"
 			default:
@@ -264,6 +271,39 @@ func runAPI(c Case, trace string) error {
 		}
 		close(gate)
 		wg.Wait()
+	case "cancel":
+		// everything starts together; once the long task is inside its command and the others are through,
+		// the runner is cancelled and then finished: after hooks and down must still run
+		var wg sync.WaitGroup
+		for i := range c.Tasks {
+			wg.Add(1)
+			go func(i int) { defer wg.Done(); errs[i] = r.Run(mk(i)) }(i)
+		}
+		deadline := time.Now().Add(3 * time.Second)
+		for time.Now().Before(deadline) {
+			b, _ := os.ReadFile(trace)
+			all := true
+			for i, t := range c.Tasks {
+				want := fmt.Sprintf("te:%d:", i)
+				if t.Long {
+					want = fmt.Sprintf("ts:%d:", i)
+				}
+				if c.UpFail[t.Ctx] || t.CondFalse {
+					continue
+				}
+				if !strings.Contains(string(b), want) {
+					all = false
+				}
+			}
+			if all {
+				break
+			}
+			time.Sleep(5 * time.Millisecond)
+		}
+		time.Sleep(30 * time.Millisecond)
+		r.Cancel()
+		wg.Wait()
+		errs = nil
 	case "scheduler":
 		var ss []*scheduler.Stage
 		tasks := make([]*task.Task, len(c.Tasks))
@@ -360,6 +400,9 @@ func genCase(rt *rapid.T, mode string) Case {
 		}
 		c.Tasks = append(c.Tasks, t)
 	}
+	if mode == "cancel" {
+		c.Tasks[rapid.IntRange(0, len(c.Tasks)-1).Draw(rt, "long-task")].Long = true
+	}
 	return c
 }
 
@@ -398,7 +441,7 @@ func TestAPI(t *testing.T) {
 	root := t.TempDir()
 	k := 0
 	rapid.Check(t, func(rt *rapid.T) {
-		c := genCase(rt, rapid.SampledFrom([]string{"parallel", "parallel", "sequential", "scheduler"}).Draw(rt, "mode"))
+		c := genCase(rt, rapid.SampledFrom([]string{"parallel", "parallel", "sequential", "scheduler", "cancel"}).Draw(rt, "mode"))
 		k++
 		record(c)
 		drv.Sample(c)
